@@ -76,6 +76,12 @@ def run(ctx):
             cfg = tu.gen_config(ctx.rng)
             cfg.update({"limit": 1, "K": max(3, cfg["K"]), "force_final": ["singleton", "pair", "empty"][i % 3]})
             cfgs.append(cfg)
+        for i in range(4 if ctx.quick() else 40):
+            # caller-side dtypes other than float64 (integer counts, single precision): the fitted means are not
+            # representable in the data's dtype
+            cfg = tu.gen_config(ctx.rng)
+            cfg.update({"dtype": ["int64", "float32", "int32", "int16"][i % 4], "limit": min(cfg["limit"], 3)})
+            cfgs.append(cfg)
         for i in range(6 if ctx.quick() else 60):
             # a covariance floor that really zeroes entries: the scored / reported matrix is the FILTERED one
             cfg = tu.gen_config(ctx.rng)
@@ -222,4 +228,6 @@ def run(ctx):
         ctx.count("runs_checked")
         if cfg.get("eps"):
             ctx.count("runs_with_floor")
+        if cfg.get("dtype"):
+            ctx.count("runs_dtype:" + cfg["dtype"])
         ctx.case(("cfg", repr(sorted(cfg.items()))), nontrivial=cfg["N"] * cfg["W"] >= 2)
